@@ -86,6 +86,18 @@ def shadowed_options(tag_kwargs, levels):
     return out
 
 
+def no_shadowing_auto(option, levels):
+    """Lean `Spec.noShadowingAuto DEFAULTS[option]` on the level readings (the hypothesis of toggle_resolution): the
+    innermost level that mentions the option says on/off, or says auto and the first on/off further out is absent or
+    equals the built-in default.  Second value: every value given is an option value (Lean `troolValued`)."""
+    mentions = [lv[option] for lv in levels if option in lv]
+    valued = all(m["t"] in ("b", "s", "m", "maybe") for m in mentions)
+    if not mentions or trool(mentions[0]) is not None:
+        return True, valued
+    outer = next((trool(m) for m in mentions[1:] if trool(m) is not None), None)
+    return outer is None or outer == DEFAULTS[option], valued
+
+
 def lookup(levels, key, default):
     for lv in levels:
         if key in lv:
@@ -267,8 +279,23 @@ def settings_of(op):
     return op.get("settings", [])
 
 
+# what a fresh Generator() reads back (docs/source/markup.rst: transformation defaults; "Numbering starts at the scope's
+# tabindex", 0 = no numbering; ids are formatted with 'f_%s'; attributes are emitted in a fixed order)
+DEFAULT_READS = dict([(k, B(v)) for k, v in DEFAULTS.items()] +
+                     [("tabindex", I(0)), ("domid_format", S("f_%s")), ("ordered_attributes", B(True))])
+
+
+def expected_snapshot(levels):
+    """what generator[key] must read: the innermost level that sets the key, else the default.  The tabindex counter is
+    one of those keys: begin() inherits it, an explicit tabindex= sets it at its level, every positive value handed out
+    advances it by one AT THE CURRENT LEVEL, end() drops the level (the outer counter resumes where it was)."""
+    return [[k, lookup(levels, k, DEFAULT_READS[k])] for k in OBSERVED]
+
+
 def run_reference(case, resolver=spec_resolve, stop_before=None):
-    """Replay the case on the real generator next to the reference; yields failures.  Independent of Lean."""
+    """Replay the case on the real generator next to the reference; yields failures.  Independent of Lean.
+    The reference keeps its OWN settings stack, tabindex counter included; the real generator is only ever compared with
+    it (after every op: `generator-reads-back` / `tabindex-counter`), never read to form an expectation."""
     fails = []
     init = case["init"]
     bad_init = [k for k, _ in init["settings"] if k not in KNOWN_KEYS]
@@ -288,11 +315,33 @@ def run_reference(case, resolver=spec_resolve, stop_before=None):
     levels = [dict((k, v) for k, v in init["settings"])]      # innermost first
     restore = []                                               # snapshots taken at each successful begin
     scopes = [[]]                                              # tabindex values handed out per open scope
-    for i, op in enumerate(case["ops"]):
+
+    def reading(k, v):
+        # an option reads back as on / off / auto in any of its documented spellings (set() stores the parsed value,
+        # begin / update / []= what they were given); everything else reads back as it was given
+        if k in OPTION_KEYS and v["t"] in ("b", "s", "m", "maybe"):
+            return trool(v)
+        return v
+
+    def read_back(i):
+        """the real generator against the reference, key by key; after a reported difference the reference adopts the
+        observed value (one defect, one report: what follows is judged relative to it)"""
+        got, want = snapshot(gen), expected_snapshot(levels)
+        diff = [k for (k, g), (_, w) in zip(got, want) if reading(k, g) != reading(k, w)]
+        if not diff:
+            return
+        clause = "tabindex-counter" if diff == ["tabindex"] else "generator-reads-back"
+        fails.append({"clause": clause, "op": i, "keys": diff,
+                      "expected": [kv for kv in want if kv[0] in diff], "observed": [kv for kv in got if kv[0] in diff]})
+        for k, g in got:
+            if k in diff:
+                levels[0][k] = g
+
+    read_back("init")
+
+    def step(i, op):
         before = snapshot(gen)
-        tb = dict(before)["tabindex"].get("v", 0)
-        if stop_before is not None and i == stop_before:
-            return fails, levels, tb
+        tb = lookup(levels, "tabindex", I(0)).get("v", 0)          # the REFERENCE's counter
         err, out, contents = apply_op(gen, op, pool)
         after = snapshot(gen)
         kind = op["op"]
@@ -304,10 +353,10 @@ def run_reference(case, resolver=spec_resolve, stop_before=None):
                     fails.append({"clause": "unknown-rejected", "op": i, "expected": want, "observed": err})
                 if after != before:
                     fails.append({"clause": "unknown-leaves-stack", "op": i, "expected": before, "observed": after})
-                continue
+                return
             if err is not None:
                 fails.append({"clause": "valid-settings-accepted", "op": i, "expected": None, "observed": err})
-                continue
+                return
             if kind == "begin":
                 restore.append(before)
                 levels.insert(0, {})
@@ -325,7 +374,7 @@ def run_reference(case, resolver=spec_resolve, stop_before=None):
             else:
                 if err is not None:
                     fails.append({"clause": "end-accepted", "op": i, "expected": None, "observed": err})
-                    continue
+                    return
                 levels.pop(0)
                 scopes.pop()
                 want = restore.pop()
@@ -340,28 +389,35 @@ def run_reference(case, resolver=spec_resolve, stop_before=None):
                     fails.append({"clause": "tag-renders", "op": i, "expected": "ValueError (open/close of a void element)", "observed": err})
                 if after != before:
                     fails.append({"clause": "rejected-leaves-stack", "op": i, "expected": before, "observed": after})
-                continue
+                return
             if how == "close":
                 if err is not None or out != "</%s>" % (op["tag"].lower() if op["via"] == "tag" else op["tag"]):
                     fails.append({"clause": "tag-renders", "op": i, "expected": "closing tag", "observed": [err, out]})
-                continue
+                return
             bad = int_valued_option(op, levels)
             if bad is not None:
                 # an int stored for an option (outside the declared domain): resolving it raises AttributeError
                 if err != "AttributeError":
                     fails.append({"clause": "tag-renders", "op": i, "expected": "AttributeError (int value of %s)" % bad, "observed": err})
-                continue
+                if bad == "auto_filter":
+                    # the last transform: the five before it ran, the tabindex one included
+                    handed = expected_tag(op, levels, resolver, tb)[3]
+                    if handed is not None and handed > 0:
+                        levels[0]["tabindex"] = I(handed + 1)
+                return
             if err is not None:
                 fails.append({"clause": "tag-renders", "op": i, "expected": "markup", "observed": err})
-                continue
+                return
             tag, attrs, text, handed = expected_tag(op, levels, resolver, tb)
+            if handed is not None and handed > 0:
+                levels[0]["tabindex"] = I(handed + 1)     # "subsequent assignments will increment by one"
             if how == "open":
                 # what the template prints: the opening half, tag.contents, later the closing half
                 out = out + (contents or "") + "</%s>" % tag
             el = mc.single_element(mc.parse_events(out), VOIDS)
             if el is None:
                 fails.append({"clause": "tag-renders", "op": i, "expected": "one element", "observed": out})
-                continue
+                return
             got = dict((k, v) for k, v in el["attrs"])
             leaked = [k for k in got if k.lower() in OPTION_KEYS]
             if leaked:
@@ -375,6 +431,12 @@ def run_reference(case, resolver=spec_resolve, stop_before=None):
                     fails.append({"clause": "tabindex-increasing", "op": i, "expected": "> %d" % scopes[-1][-1], "observed": handed,
                                   "previous": scopes[-1][-1]})
                 scopes[-1].append(handed)
+
+    for i, op in enumerate(case["ops"]):
+        if stop_before is not None and i == stop_before:
+            return fails, levels, lookup(levels, "tabindex", I(0)).get("v", 0)
+        step(i, op)
+        read_back(i)
     # drain: exactly the open blocks can be ended
     opened = 0
     while opened < 64:
@@ -527,8 +589,14 @@ class C19(Property):
                   "C19_full_fails (KF-C19-a); (2) resolution is proved for _pop_toggle's return value; decision => attribute is "
                   "proved against the applies table for name (equation), id/for/tabindex (skips + applies) and the skip half of "
                   "value; the per-tag value semantics (checked/selected/textarea) are C12 theorems for the non-forced path and "
-                  "otherwise rest on correspondence + oracle; (3) tabindex: positive counters only (KF-C19-b); filters not "
-                  "modelled beyond consuming auto_filter")
+                  "otherwise rest on correspondence + oracle; the transform*_applies / _skips / transformName_decision theorems and "
+                  "guard_eq_applies are BY CONSTRUCTION (Spec.applies and the model's guard are the same expression over the "
+                  "same regenerated _auto_tags table: the assurance for the applies table is the correspondence with the real "
+                  "code plus the oracle's own hard-coded AUTO_TAGS from the documentation); (3) tabindex: positive counters "
+                  "only (KF-C19-b: negative 'stop numbers' are test-pinned); the VALUE of the counter (explicit per level, "
+                  "inherited by begin, +1 per positive hand-out at the current level, outer counter resumes after end) is "
+                  "kept by the oracle's own reference and compared with generator['tabindex'] after every op (clause "
+                  "tabindex-counter; generator-reads-back for the other keys); filters not modelled beyond consuming auto_filter")
     technique = ("invariant (flat-copied frames = levels replayed) by induction over histories; decision-table resolver; "
                  "tables YES/NO/MAYBE, _default_context, _auto_tags regenerated from the source")
     trusted_base = [
@@ -540,7 +608,7 @@ class C19(Property):
         "to exercise a tag call that raises after the counter write); tabindex is an int; domid_format is a str with %s / %% only",
         "Context.push/pop are not called directly (only through begin/end)",
     ]
-    rule = ("histories of 1-12 Generator calls: begin/end/set/[]=/update (nesting depth <= 5, unbalanced end() and unknown option "
+    rule = ("histories of 1-30 Generator calls (1, 2, 3, 4, 6, 8, 12, 12, 20 or 30; the `ops=` tag is capped at 12): begin/end/set/[]=/update (nesting depth <= 5, unbalanced end() and unknown option "
             "names interleaved) and tag calls (7 tag properties + tag(), input types, every subset of pre-existing "
             "name/value/id/for/tabindex/checked/selected, tag-level options); option values from on/off/auto/True/False/Maybe/"
             "unknown text/upper-case/Kelvin-sign spellings.  non-trivial = at least one tag call made under >= 2 explicit levels or "
@@ -584,7 +652,8 @@ class C19(Property):
                      {"op": "end"},
                      {"op": "tag", "via": "prop", "tag": "textarea", "bind": {"kind": "scalar", "name": "d", "u": ""}, "kwargs": [], "handle": "t", "how": "call"},
                      {"op": "tag", "via": "prop", "tag": "input", "bind": None, "kwargs": [], "how": "open"}]},
-            # non-positive counters are handed out unchanged (tabindex=-1 twice): documented HTML meaning, outside "increasing"
+            # open KF-C19-b: a negative counter is handed out unchanged and never advances (tabindex=-1 twice): the "stop
+            # numbers" pinned by tests/markup/test_transforms.py::test_tabindex_stop_numbers; a violation of "increasing"
             {"init": {"markup": "xhtml", "settings": [["auto_tabindex", B(True)], ["tabindex", I(-1)]]}, "ops": [inp, inp]},
         ]
 
@@ -646,9 +715,11 @@ class C19(Property):
             # negative values keep their HTML meaning "not reachable by tabbing")
             h, prev = failure.get("observed"), failure.get("previous")
             return "KF-C19-b" if isinstance(h, int) and h < 0 and h == prev else None
-        if failure.get("clause") != "resolution" or not isinstance(failure.get("op"), int):
+        if failure.get("clause") not in ("resolution", "tabindex-counter") or not isinstance(failure.get("op"), int):
             return None
         i = failure["op"]
+        if case["ops"][i]["op"] != "tag":
+            return None
         # replay the prefix to get the levels and the tabindex in force just before op i
         try:
             _, levels, tb = run_reference(case, stop_before=i)
@@ -661,6 +732,11 @@ class C19(Property):
         if not shadowed_options(kw, levels):
             return None
         tag, attrs, text, handed = expected_tag(op, levels, shadow_resolve, tb)
+        if failure["clause"] == "tabindex-counter":
+            # the counter side of the same finding: with the shadowed options at their built-in default the call hands
+            # out (or does not hand out) a value, and the counter after the call is exactly what that gives
+            predicted = handed + 1 if handed is not None and handed > 0 else tb
+            return "KF-C19-a" if failure.get("observed") == [["tabindex", I(predicted)]] else None
         obs = failure.get("observed") or {}
         if dict((k, v) for k, v in obs.get("attrs", [])) == attrs and obs.get("text") == text and obs.get("tag") == tag:
             return "KF-C19-a"
@@ -702,6 +778,36 @@ class C19(Property):
                     if k in PRE_ATTRS:
                         t.append("pre=%s" % k)
         t.append("maxdepth=%d" % maxd)
+        # how often the hypotheses of the resolution theorem hold: per (tag call, option) pair, summarised per case
+        levels = [dict((k, v) for k, v in case["init"]["settings"])]
+        pairs = holds = two = two_holds = unvalued = 0
+        if not obs.get("init_err"):
+            for op, st in zip(case["ops"], obs["steps"]):
+                if st["err"]:
+                    continue
+                kind = op["op"]
+                if kind == "begin":
+                    levels.insert(0, {})
+                if kind in ("begin", "set", "setitem", "update"):
+                    for k, v in settings_of(op):
+                        levels[0][k] = v
+                elif kind == "end" and len(levels) > 1:
+                    levels.pop(0)
+                elif kind == "tag" and op.get("how", "call") != "close":
+                    for option in FIVE:
+                        ok, valued = no_shadowing_auto(option, levels)
+                        n = sum(1 for lv in levels if option in lv)
+                        pairs += 1
+                        holds += ok
+                        unvalued += not valued
+                        if n >= 2:
+                            two += 1
+                            two_holds += ok
+        if pairs:
+            t.append("noShadowingAuto=%s" % ("all" if holds == pairs else "some-fail"))
+            t.append("two-level-decision=%s" % ("none" if not two else ("holds" if two_holds == two else "some-fail")))
+            if unvalued:
+                t.append("troolValued=fails")
         if obs.get("open"):
             t.append("left-open")
         return sorted(set(t))
